@@ -11,6 +11,7 @@ import warnings
 def outcome(entry):
     import blackbird
     from bbv import canon
+    canon.EXACT_TRANSFORMS = True
     d = None
     try:
         with warnings.catch_warnings():
